@@ -8,6 +8,7 @@ class PutRoles(object):
     def __init__(self, ctx):
         b = ctx.graph('put')
         self.b = b
+        self._cache = {}
         g = b.g
         self.g = g
         opts = argparse_options(b)
@@ -38,14 +39,67 @@ class PutRoles(object):
         self.moves = [e for e in muts if e.data['kind'] == 'MOVE']
         self.deletes = [e for e in muts if e.data['kind'] == 'DELETE']
         self.mkdirs = [e for e in muts if e.data['kind'] == 'CREATE_DIR']
-        # loops dominating the creation of the info file
+        # loops over the candidate trash directories: they lie inside the argument loop and
+        # enclose an exclusive creation.  When the candidates come as alternative lists
+        # (a one-element literal for --trash-dir, a built list otherwise) the body is
+        # analysed once per alternative, a short literal as an unrolled loop.
         self.candidate_loops = []
-        anchor = (self.opens or self.moves or self.muts or [None])[0]
-        for d in (g.dominators(anchor.id) if anchor is not None else []):
-            n = g.n(d)
-            if n.kind == 'loop' and n.id != self.arg_loop.id and \
-                    g.dominates(self.arg_loop.id, n.id) and n.data.get('kind') == 'for':
-                self.candidate_loops.append(n)
+        seen = set()
+        for anchor in (self.opens or self.moves or self.muts[:1]):
+            for d in g.dominators(anchor.id):
+                n = g.n(d)
+                if n.kind == 'loop' and n.id != self.arg_loop.id and n.id not in seen and \
+                        g.dominates(self.arg_loop.id, n.id) and \
+                        n.data.get('kind') in ('for', 'unrolled') and \
+                        not n.data.get('unbounded') and \
+                        anchor.id in self.loop_body(n):
+                    # (a loop over an endless counter is the name-retry loop, not the
+                    # loop over candidate trash directories)
+                    seen.add(n.id)
+                    self.candidate_loops.append(n)
+
+    def loop_body(self, cl):
+        """Nodes inside the body of loop cl (not what follows its exit)."""
+        g = self.g
+        its = [n.id for n in self.b.nodes('iteration')
+               if (n.file, n.line, n.stack) == (cl.file, cl.line, cl.stack) and
+               g.dominates(cl.id, n.id)]
+        blocked = [cl.id, self.arg_loop.id] + \
+            ([cl.data['exit']] if cl.data.get('exit') is not None else [])
+        key = ('body', cl.id)
+        if key not in self._cache:
+            self._cache[key] = set(x for x in g.reachable_from(its, blocked=blocked)
+                                   if g.dominates(cl.id, x))
+        return self._cache[key]
+
+    def candidates_for(self, node_id):
+        """Candidate objects that can be the current candidate when node_id runs: the
+        elements iterated by the candidate loop (copy) whose body contains it; all
+        candidates when the structure is not recognised."""
+        g = self.g
+        out = []
+        for cl in self.candidate_loops:
+            if node_id not in self.loop_body(cl):
+                continue
+            for n in self.b.nodes('iteration'):
+                if (n.file, n.line, n.stack) == (cl.file, cl.line, cl.stack) and \
+                        g.dominates(cl.id, n.id) and n.data.get('value') is not None:
+                    for a in flat(n.data['value']):
+                        if isinstance(a, Obj) and 'trash_dir_path' in a.fields and \
+                                not any(a is x for x in out):
+                            out.append(a)
+        if not out:
+            out = [o for n, o in candidate_sites(self.b)]
+        return out
+
+    def attempt_region(self):
+        """Nodes of one attempt (one candidate trash directory) -- union over the
+        alternative candidate loops."""
+        g = self.g
+        out = set()
+        for cl in self.candidate_loops:
+            out |= self.loop_body(cl)
+        return out
 
     def is_arg(self, t):
         return cid(t) in self.arg_ids
@@ -105,3 +159,91 @@ def is_left_test(c):
         if isinstance(k, ClsRef) and k.cls.name == 'Left':
             return c.args[0]
     return None
+
+
+def either_rets(b, inside=None):
+    """ret nodes whose value may be a failure (Left) as well as a success (Right)."""
+    out = []
+    for n in b.nodes('ret'):
+        v = n.data.get('value')
+        if v is None:
+            continue
+        fl = flat(v)
+        if any(isinstance(a, Obj) and a.cls.name == 'Left' for a in fl) and \
+                any(isinstance(a, Obj) and a.cls.name == 'Right' for a in fl) and \
+                (inside is None or b.g.dominates(inside, n.id)):
+            out.append(n)
+    return out
+
+
+def failure_sites(rt):
+    """Sites (return / construction nodes) that produced the failure alternatives
+    of the value returned at rt."""
+    out = []
+    for a, o in alts(rt.data['value']):
+        a2 = strip(a)
+        if isinstance(a2, Obj) and a2.cls.name == 'Left':
+            s = o if o is not None else a2.site
+            out.append(s)
+    return out
+
+
+def fails_closed(b, rt, target, cache=None):
+    """The Either result returned at rt is known to be a success whenever target is
+    reached in the same attempt: either its negative Left-test dominates target, or
+    no run-consistent path leads from a site that produced one of its failure
+    alternatives to target without starting another iteration of an enclosing loop.
+    (The second form sees through helpers that hand the failure on as
+    Optional[Left], a flag, an early return ...)"""
+    g = b.g
+    key = (rt.id, target)
+    if cache is not None and key in cache:
+        return cache[key]
+    ids = alt_ids(rt.data['value'])
+    ok = False
+    for c, pol, n in guards(b, target):
+        c2, pol2 = unwrap_not(c, pol)
+        x = is_left_test(c2)
+        if x is not None and not pol2 and alt_ids(x) == ids:
+            ok = True
+            break
+    if not ok:
+        sites = failure_sites(rt)
+        if sites and all(s is not None for s in sites):
+            loops = [d for d in g.dominators(rt.id) if g.n(d).kind == 'loop']
+            ok = all(feasible_path(b, [s], target, loops) is None for s in sites)
+    if cache is not None:
+        cache[key] = ok
+    return ok
+
+
+def success_tested_before(b, r, e, cache=None):
+    """[ret node] of the Either results that dominate effect e inside the argument
+    iteration and are known to be successes when e is reached."""
+    return [rt for rt in either_rets(b, r.arg_iteration)
+            if precedes(b, r, rt.id, e.id, cache) and fails_closed(b, rt, e.id, cache)]
+
+
+def precedes(b, r, a, n, cache=None):
+    """Every run-consistent path from the start of the argument iteration to n
+    passes a (dominance that ignores self-contradicting paths)."""
+    if b.g.dominates(a, n):
+        return True
+    key = ('dom', a, n)
+    if cache is not None and key in cache:
+        return cache[key]
+    ok = cut_c(b, r.arg_iteration, n, [a])
+    if cache is not None:
+        cache[key] = ok
+    return ok
+
+
+def candidate_sites(b):
+    """[(node, obj)]: construction sites of candidate trash directories (objects with a
+    trash_dir_path and a gate), however they are collected (append, list literal ...)."""
+    out = []
+    for n in b.nodes('new'):
+        o = n.data.get('obj')
+        if isinstance(o, Obj) and 'trash_dir_path' in o.fields and 'gate' in o.fields:
+            out.append((n, o))
+    return out
